@@ -533,7 +533,7 @@ def _drive(script, d, timeout=300, symbolize=False):
     sp = os.path.join(d, "script")
     open(sp, "w").write(script)
     env = None if symbolize else {"ASAN_OPTIONS": core.SAN_ENV["ASAN_OPTIONS"] + ":symbolize=0"}
-    return core.run([exe, "--alarm", str(PROBE_ALARM), sp], timeout=timeout, env=env)
+    return ifacegen.run([exe, "--alarm", str(PROBE_ALARM), sp], timeout=timeout, env=env)
 
 
 def _probe_lines(out):
@@ -602,9 +602,10 @@ def _confirm_crash(ctx, case, res, d, data, label, what, ident=0):
     exe = ifacegen.idbdrive_path()
     sp = os.path.join(d, "crash-%s.script" % label)
     open(sp, "w").write("probe x %s %d 4 1\n" % (ifacegen.hexs(f), ident))
-    r = core.run([exe, "--nocatch", sp], timeout=60)
-    if r.timed_out:
-        res.count("unconfirmed_hang")
+    r = ifacegen.run([exe, "--nocatch", "--alarm", str(PROBE_ALARM * 2), sp], timeout=60)
+    if r.timed_out or r.sig == 14 or r.rc == -14:
+        # the fresh process ran into the watchdog instead (the unset count can also be huge): a hang, not judged
+        res.count("prefix_hang_unjudged")
         return
     if r.died() or r.asan_report() or _ubsan_exit(r):
         res.violation(_crash_key(r), witness=what, prefix_len=len(data), got=r.err[-1500:])
